@@ -35,6 +35,7 @@ type inst struct {
 	counts  map[string]int
 	sites   *[]Site
 	dense   bool
+	pdense  bool
 	tick    bool
 	used    bool
 	timeRep bool
@@ -444,6 +445,8 @@ func (r *inst) wrap(s ast.Stmt, f facts) []ast.Stmt {
 	var pre, post []ast.Stmt
 	if r.dense {
 		pre = append(pre, r.yield(s, "stmt"))
+	} else if r.pdense {
+		pre = append(pre, r.yield(s, "pstmt"))
 	}
 	if f.sharedR || f.sharedW {
 		pre = append(pre, r.yield(s, "shared"))
@@ -563,6 +566,7 @@ func (r *inst) selectors(f *ast.File) {
 func main() {
 	dir := flag.String("dir", "", "module root of the scratch copy (rewritten in place)")
 	dense := flag.String("dense", "", "comma separated package path suffixes that get a hook before every statement")
+	pdense := flag.String("pdense", "", "comma separated package path substrings that get a counted pre-emption point before every statement")
 	tick := flag.String("tick", "/io/", "comma separated package path substrings whose loops get Tick()")
 	sitesOut := flag.String("sites", "", "write site table (json)")
 	flag.Parse()
@@ -590,7 +594,7 @@ func main() {
 		}
 		for i, f := range p.Syntax {
 			r := &inst{p: p, fset: p.Fset, root: root, counts: counts, sites: &sites,
-				dense: match(*dense, p.PkgPath), tick: match(*tick, p.PkgPath)}
+				dense: match(*dense, p.PkgPath), pdense: match(*pdense, p.PkgPath), tick: match(*tick, p.PkgPath)}
 			r.computeShared(f)
 			r.selectors(f)
 			for _, d := range f.Decls {
